@@ -20,7 +20,9 @@ def build_harness():
 def gen_trials(ctx):
     rng = ctx.rng
     t = [(5, 2, 1, -1, -1), (0, 3, 1, -1, -1), (7, 3, 2, 3, -1), (6, 2, 3, -1, 4), (1, 5, 4, -1, -1), (4, 4, 5, 0, -1), (9, 1, 6, -1, -1), (3, 8, 7, 2, -1),
-         (6, 3, 8, -1, 0), (6, 3, 9, -1, 5), (12, 4, 10, 11, -1)]
+         (6, 3, 8, -1, 0), (6, 3, 9, -1, 5), (12, 4, 10, 11, -1),
+         # one task much slower than the others (300 ms), fewer threads than tasks
+         (6, 2, 11, -1, -1, 0), (7, 3, 12, -1, -1, 2), (9, 2, 13, -1, -1, 5), (5, 4, 14, 3, -1, 1)]
     for _ in range(ctx.scale(60, 800)):
         T = rng.choice([1, 2, 3, 4, 8])
         n = rng.choice([0, 1, T - 1, T, T + 1, 2 * T, 2 * T + 1, rng.randint(0, 20)])
@@ -38,7 +40,7 @@ def model_eval(trials):
             "  | t :: rest => match pstep n bad s t with Some s' => tr n bad s' rest (if kdone s <? kdone s' then sent s' :: acc else acc) | None => tr n bad s rest acc end end.",
             "Definition fair (T k : nat) : list nat := concat (repeat (seq 1 T ++ [0]) k)."]
     body.append("Eval vm_compute in [" + "; ".join(
-        f"tr {n} (fun i => {('Nat.eqb i ' + str(f)) if f >= 0 else 'false'}) (pinit {n} {T}) (fair {T} {3 * n + 6}) []" for (n, T, _s, _d, f) in trials) + "].")
+        f"tr {n} (fun i => {('Nat.eqb i ' + str(f)) if f >= 0 else 'false'}) (pinit {n} {T}) (fair {T} {3 * n + 6}) []" for (n, T, _s, _d, f, *_x) in trials) + "].")
     return common.parse_coq_list(common.coq_eval(PID, "parmap", "\n".join(body) + "\n"))
 
 
@@ -69,7 +71,7 @@ def run(ctx):
     except Broken as b:
         broken.append(b)
     for t, o in zip(trials, outs):
-        n, T, seed, drop_at, fail_at = t
+        n, T, seed, drop_at, fail_at = t[:5]
         W = min(T, n)
         exp_n = n if drop_at < 0 else min(n, drop_at)
         if fail_at >= 0 and (drop_at < 0 or fail_at < drop_at):
